@@ -1,5 +1,6 @@
 (* C13 — every superseded primary location is freed exactly once (as an invariant of every reachable state). *)
 From Coq Require Import List NArith.
+From STH Require Import Conc ConcGC.
 From STH Require Import Log Lex Index Store Refine GInv Full2 Codec Crash2 Statements Statements2 Budget Budget2 Statements6.
 Import ListNotations.
 Open Scope N_scope.
@@ -43,3 +44,23 @@ Theorem C13_freelist_invariant_with_time_limited_gc :
     G (grun_state (init bits imx pmx imm) l).
 Proof. exact greachable_freelist_invariant. Qed.
 Print Assumptions C13_freelist_invariant_with_time_limited_gc.
+
+(* ---- C13 UNDER CONCURRENCY (location-protocol model ConcGC.v: callers with the key lock and their compare-and-swap retry loops,
+   primary GC cycles as threads - hand-over of any freelist prefix, one mark per step, relocation by copy + compare-and-swap).
+   For ANY number of callers and collectors and ANY schedule, in every state reached: no location is on the freelist twice, no
+   current location is on it, and - once every call has returned - every live location is current or on the freelist, i.e. every
+   location that stopped being current was recorded (exactly once: the list has no duplicates, and a location that a collector
+   took off the list is dead and is never recorded again because only current or freshly written locations are ever recorded).
+   [QInv] is C13 as a state invariant of a store in which no call is running; the empty store satisfies it.
+   The two repairs this theorem needs are /repo 5a805be (key lock) and 3cdde23 (compare-and-swap in the writer): without them the
+   schedules corpus/C13/*.scn leave a location on the freelist twice and a relocated copy nowhere. ---- *)
+Theorem C13_concurrent_schedules_free_every_location_exactly_once :
+  forall s m calls sched, QInv s m ->
+    let '(s', m', ps) := aexec (s, m, map AStart calls) sched in
+    NoDup (afree s') /\ (forall b, In b (afree s') -> ~ ConcGC.current s' b) /\
+    ((forall t p, nth_error ps t = Some p -> exists r lin, p = ADone r lin) -> QInv s' m').
+Proof. exact gc_accounting. Qed.
+Print Assumptions C13_concurrent_schedules_free_every_location_exactly_once.
+Theorem C13_the_empty_store_satisfies_the_quiescent_invariant : QInv aempty (fun _ => None).
+Proof. exact qinv_empty. Qed.
+Print Assumptions C13_the_empty_store_satisfies_the_quiescent_invariant.
